@@ -103,4 +103,30 @@ theorem unreadWriteSize_bridge (w r e : Nat) (hw : w < 9223372036854775808) (hr 
   bridge_arith []
 
 
+/-! ### accesses of the non-atomic `dataEnd`: what the source does, however it is written -/
+
+/-- the consumer's `beginRead` reads `dataEnd` exactly on the wrapped path `w < r` (the condition of the model's `cBegin`) and
+    never writes it -/
+theorem beginRead_dataEnd (w r e : Nat) (re0 b1 s1 b2 s2 : Int) :
+    (Src.beginRead w r e re0 b1 s1 b2 s2).dataEnd_read = decide (w < r) ∧
+    (Src.beginRead w r e re0 b1 s1 b2 s2).dataEnd_written = false := by
+  bridge_unfold [Src.beginRead]
+  bridge_arith []
+
+/-- the producer's `unreadWriteSize` reads `dataEnd` exactly on the wrapped path `w < r` -/
+theorem unreadWriteSize_dataEnd (w r e : Nat) :
+    (Src.unreadWriteSize w r e).dataEnd_read = decide (w < r) ∧ (Src.unreadWriteSize w r e).dataEnd_written = false := by
+  bridge_unfold [Src.unreadWriteSize]
+  bridge_arith []
+
+/-- the producer's `maximizeWriteCapacity` never reads `dataEnd` and writes it exactly when it wraps: `r ≤ w` and the arena
+    left of R is larger than the one right of W (the third branch of `modelMaximize`) -/
+theorem maximizeWriteCapacity_dataEnd (cap w r e : Nat) (wp0 we0 : Int)
+    (hc : cap < 9223372036854775808) (hw : w ≤ cap) :
+    (Src.maximizeWriteCapacity w r cap e wp0 we0).dataEnd_read = false ∧
+    (Src.maximizeWriteCapacity w r cap e wp0 we0).dataEnd_written = decide (r ≤ w ∧ cap + 1 < r + w) := by
+  bridge_unfold [Src.maximizeWriteCapacity]
+  bridge_arith []
+
+
 end BinlogVerif.SrcBridge
